@@ -158,6 +158,10 @@ HARNESSES = [
       note="find_match / record_match / record_literal / flush_block replaced by contract models"),
     H("k_find_match_chain", "K-findmatch", ["C01", "C10", "C11"], fns=["DictOxide::find_match", "DictOxide::read_unaligned_u64", "read_u16_le"], cost=60, timeout=900,
       strength="B(one concrete window/hash-chain instance with three chain entries incl. a 65536-byte-old aliasing one; 8 concrete (incoming length, length limit) pairs; complete in probe budget, distance limit, incoming distance)"),
+    *[H(n, "K-fastcap", ["C01", "C10", "C11"], fns=["compress_fast (trigram hash lookup, match verification, distance/window cap, token emission, early return)", "DictOxide::read_unaligned_u32", "DictOxide::read_unaligned_u64"], cost=90, timeout=1200,
+        strength="B(one planted 4-byte repeat at distance %s, 4 input bytes; complete in format, level, strategy, window bits, dictionary size)" % dd,
+        note="LZOxide::write_code, flush_block, copy_from_slice replaced by recording contract models; window re-allocated as Box::new arrays (same all-zero state) so CBMC folds reads")
+      for (n, dd) in (("k_fast_cap_300", "300"), ("k_fast_cap_5000", "5000"))],
     # ---- K-huff ----
     H("k_enforce_max_code_size_kraft", "K-huff", ["C10"], fns=["HuffmanOxide::enforce_max_code_size"], cost=50, timeout=900,
       strength="B(<= 9 codes, tree depths <= 9, limit 7; complete over every depth histogram of a full binary tree in that range)"),
